@@ -229,6 +229,69 @@ func c06Scenarios(tier string) []*world.Scenario {
 		}
 		out = append(out, c06Batch(i/batch, all[i:j]))
 	}
+	// sweeps over the NUMBERS a fragment header carries: every key / value length 0..300 and around the powers of ten and
+	// two up to 100000, every number of keys of one slot 1..130 and around 256 / 1000 / 1024 (next to one key of another slot)
+	var sweep []c06req
+	other := keysC[4]
+	mk := func(kind string, keys, vals []string) {
+		r := c06req{kind: kind, keys: keys, vals: vals}
+		args := []string{kind}
+		for j, k := range keys {
+			args = append(args, k)
+			if kind == "mset" {
+				args = append(args, vals[j])
+			}
+		}
+		r.raw = world.Cmd(args...)
+		sweep = append(sweep, r)
+	}
+	lens := []int{}
+	for L := 0; L <= 300; L++ {
+		lens = append(lens, L)
+	}
+	lens = append(lens, 511, 512, 513, 999, 1000, 1001, 1023, 1024, 1025, 4095, 4096, 4097, 9999, 10000, 10001, 65535, 65536, 65537, 99999, 100000, 100001)
+	for _, L := range lens {
+		if tier != "thorough" && L > 300 && L%2 == 1 && L != 1001 && L != 10001 {
+			continue
+		}
+		k := "{t}" + strings.Repeat("k", L)
+		if L < 3 {
+			k = strings.Repeat("q", L)
+		} else {
+			k = k[:L]
+		}
+		v := strings.Repeat("v", L)
+		mk("mget", []string{k, other}, nil)
+		mk("del", []string{other, k}, nil)
+		mk("mset", []string{k, other}, []string{v, "w"})
+	}
+	counts := []int{}
+	for n := 1; n <= 130; n++ {
+		counts = append(counts, n)
+	}
+	counts = append(counts, 254, 255, 256, 257, 258, 499, 500, 501, 999, 1000, 1001, 1023, 1024, 1025)
+	for _, n := range counts {
+		var ks, vs []string
+		for i := 0; i < n; i++ {
+			ks = append(ks, fmt.Sprintf("{t}%d", i))
+			vs = append(vs, "v")
+		}
+		mk("mget", append(append([]string{}, ks...), other), nil)
+		mk("del", append([]string{other}, ks...), nil)
+		mk("mset", append(append([]string{}, ks...), other), append(append([]string{}, vs...), "w"))
+	}
+	const sbatch = 40
+	for i := 0; i < len(sweep); i += sbatch {
+		j := i + sbatch
+		if j > len(sweep) {
+			j = len(sweep)
+		}
+		sc := c06Batch(10000+i/sbatch, sweep[i:j])
+		sc.Family = "number-sweep"
+		sc.ReadCap, sc.WriteCap, sc.MaxLen = 65536, 65536, 4<<20
+		sc.Name = fmt.Sprintf("C06/number-sweep/batch%d(%s, first key %d bytes, %d keys ..)", i/sbatch, sweep[i].kind, len(sweep[i].keys[0]), len(sweep[i].keys))
+		out = append(out, sc)
+	}
 	return out
 }
 
